@@ -176,3 +176,47 @@ func CheckC06(h *History, blk *BlockRecord) []Violation {
 	}
 	return out
 }
+
+// ---------------------------------------------------------------- C18
+
+// CheckC18: block processing failures are reported by the engine itself
+// (BlockFailureIsViolation). Here: a transaction that failed (non-zero code, incl.
+// recovered panics) must have been rolled back — the books that every handler touches
+// (pool reserves vs bank, share supply vs committed, vault equation) still balance
+// after a block that contained failed txs.
+func CheckC18(h *History, blk *BlockRecord) []Violation {
+	missing := false
+	for _, d := range h.W.Scenario.Denoms {
+		found := false
+		for _, p := range h.Cur.Prices {
+			if p.Asset == displayOf(d) {
+				found = true
+			}
+		}
+		if !found {
+			missing = true
+		}
+	}
+	if missing {
+		h.Labels["block-with-missing-price"]++
+	}
+	failed, panicked := 0, 0
+	for _, tx := range blk.Txs {
+		if tx.Code != 0 {
+			failed++
+			if strings.Contains(tx.Log, "recovered") || strings.Contains(tx.Log, "panic") {
+				panicked++
+			}
+		}
+	}
+	if failed == 0 {
+		return nil
+	}
+	h.Labels["blocks-with-failed-tx"]++
+	h.Labels["txs-panicked"] += panicked
+	var out []Violation
+	for _, v := range append(append(CheckC01(h, blk), CheckC02(h, blk)...), CheckC06(h, blk)...) {
+		out = append(out, Violation{Sig: "C18/failed-tx-not-rolled-back/" + v.Sig, Detail: v.Detail})
+	}
+	return out
+}
